@@ -70,13 +70,35 @@ def render(lead, src):
     return ''.join(out)
 
 
+def dec_f64(d):
+    return float(d if d[0] != '.' else '0' + d)          # correctly rounded; beyond the range: inf
+
+
+def num_f64(n, neg=False):
+    """value in binary64 exactly as a reader working in f64 computes it, or None when the numeral is
+    not well-formed "in the arithmetic at hand": zero or infinite denominator, infinite numeral/quotient"""
+    if n[0] == 'd':
+        v = dec_f64(n[1])
+        return (-v if neg else v) if math.isfinite(v) else None
+    x, y = dec_f64(n[1]), dec_f64(n[2])
+    if y == 0.0 or not math.isfinite(y):
+        return None
+    q = (-x if neg else x) / y
+    return q if math.isfinite(q) else None
+
+
 def src_ok(src):
     for neg, coef, vs in src:
-        if coef is not None and not num_ok(coef):
+        if coef is not None and num_f64(coef, neg) is None:
             return False
+        sums = {}
         for l, e in vs:
-            if e is not None and not num_ok(e[1]):
+            ev = 1.0 if e is None else num_f64(e[1], e[0])
+            if ev is None:
                 return False
+            sums[l] = sums[l] + ev if l in sums else ev      # same letter: added left to right
+        if not all(math.isfinite(v) for v in sums.values()):
+            return False
     return True
 
 
@@ -281,6 +303,67 @@ def mutate(rng, t):
     return t[:j] + rng.choice(MUT_CHARS) + t[j + 1:]
 
 
+def big_digits(rng):
+    k = rng.random()
+    if k < 0.35:
+        n = rng.randint(310, 420)                      # certainly infinite
+        return rng.choice('123456789') + ''.join(rng.choice('0123456789') for _ in range(n - 1))
+    if k < 0.55:
+        n = rng.randint(290, 308)                      # large but finite
+        return rng.choice('123456789') + ''.join(rng.choice('0123456789') for _ in range(n - 1))
+    return rng.choice(['9' * 308, '9' * 309, '1' + '0' * 308, '1' + '0' * 309, '17976931348623157' + '0' * 292,
+                       '17976931348623158' + '0' * 292, '17976931348623159' + '0' * 292, '18' + '0' * 307,
+                       '17976931348623158079372897140530341507993413271003782693617377898044496829276475094664901797758720709633028641669288791094655554785194040263065748867150582068190890200070838367627385484581771153176447573027006985557136695962284291481986083893647529271907416844436551070434271155969950809304288017790417449779' + '.' + rng.choice(['0', '5', '9']),
+                       '0' * 400 + '7', '9' * 308 + '.' + '9' * 50])
+
+
+def tiny_dec(rng):
+    return rng.choice(['.' + '0' * rng.randint(300, 420) + '1', '0.' + '0' * 322 + '1', '0.' + '0' * 323 + '5',
+                       '0.' + '0' * 323 + '2', '.' + '0' * 307 + '1'])
+
+
+def overflow_texts(rng, n):
+    fixed = ['9' * 400 + 'x', '9' * 308 + '/.1x', '1/' + '9' * 309 + 'x', 'x^' + '9' * 308 + 'x^' + '9' * 308,
+             'x^' + '9' * 400, '-' + '9' * 400, 'x^-' + '9' * 400, '9' * 308 + 'x^' + '9' * 308, 'x^1/' + '9' * 400,
+             'x^' + '9' * 400 + '/2', '1/.' + '0' * 400 + '1x', '.' + '0' * 400 + '1x', 'x^-' + '9' * 308 + 'x^-' + '9' * 308,
+             'x^' + '9' * 308 + 'x^-' + '9' * 308, 'x^' + '9' * 308 + 'yx^' + '9' * 308, '-' + '9' * 308 + '/.1',
+             '9' * 308 + '/.5' + 'x^' + '9' * 308 + '/.5']
+    for t in fixed:
+        yield t, True
+    for _ in range(n):
+        B, S, Tn = big_digits(rng), small_dec(rng, nonzero=True), tiny_dec(rng)
+        sign = rng.choice(['', '-', '+'])
+        form = rng.randrange(12)
+        v, w = rng.choice('xyzab'), rng.choice('xyzab')
+        if form == 0:
+            t = sign + B + v
+        elif form == 1:
+            t = sign + B + '/' + S + v
+        elif form == 2:
+            t = sign + S + '/' + B + v
+        elif form == 3:
+            t = sign + B + '/' + Tn
+        elif form == 4:
+            t = sign + v + '^' + rng.choice(['', '-']) + B
+        elif form == 5:
+            t = sign + v + '^' + rng.choice(['', '-']) + B + v + '^' + rng.choice(['', '-']) + big_digits(rng)
+        elif form == 6:
+            t = sign + v + '^' + rng.choice(['', '-']) + B + '/' + S
+        elif form == 7:
+            t = sign + v + '^' + S + '/' + B
+        elif form == 8:
+            t = sign + Tn + v + '^' + S + '/' + Tn
+        elif form == 9:
+            t = '2' + w + sign.replace('', '+', 1)[:1] + B + v + '^2-3'
+        elif form == 10:
+            t = sign + B + '/' + big_digits(rng) + v
+        else:
+            t = sign + v + '^' + B + w + v + '^' + B + w + '^' + S
+        if rng.random() < 0.2:
+            t = add_blanks(rng, t)
+        yield t, rng.random() < 0.3
+
+
 def univariate_src(rng):
     v = rng.choice('xyztabXQ')
     src = []
@@ -351,6 +434,13 @@ def gen(rng, tier):
         yield Case('parse ' + cps(t), 'malformed', {'src': None, 'text': t})
         if rng.random() < 0.15:
             yield Case('eval %s %s 0' % (cps(t), f2hex(1.5)), 'malformed_eval', {'src': None, 'text': t, 'x': 1.5, 'binds': []})
+    # numerals around and beyond the range of f64 (fix 59b028d): rejected, never infinite, never a panic
+    for t, with_eval in overflow_texts(rng, 150 if tier == 'quick' else 2500):
+        yield Case('parse ' + cps(t), 'overflow', {'src': None, 'text': t})
+        if with_eval:
+            binds = [[l, 1.5] for l in sorted(set(c for c in t if c in ASCII_LETTERS))]
+            line = 'eval %s %s %d %s' % (cps(t), f2hex(2.0), len(binds), ' '.join(cps(l) + ' ' + f2hex(v) for l, v in binds))
+            yield Case(line.strip(), 'overflow_eval', {'src': None, 'text': t, 'x': 2.0, 'binds': binds, 'nonum': True})
     # agreement with the univariate parser
     for _ in range(n_agree):
         src = univariate_src(rng)
@@ -423,6 +513,10 @@ def judge_structure(src, impl):
     if st is None:
         return 'malformed output'
     terms, names = st
+    for ctok, vs in terms:
+        for tok in [ctok] + [e for _, e in vs]:
+            if not is_hexfloat(tok) or tok == 'nan' or math.isinf(hex2f(tok)):
+                return 'accepted polynomial has a non-finite coefficient or exponent'
     want = canonical(src)
     if len(terms) != len(want):
         return 'number of terms differs from the source'
@@ -518,6 +612,10 @@ def eval_views(case):
     m = case.meta
     src = expected_src(case)
     ls = letters_of(src)
+    if m.get('nonum'):          # numerals near the range limits: only error kinds and "never panic" are judged
+        env = {l for l, _ in m['binds']}
+        return (('err', 'VariableNotFound') if any(l not in env for l in ls) else ('any',),
+                ('err', 'TooManyVariables') if len(ls) > 1 else ('any',))
     env = {}
     for l, v in m['binds']:
         env[l] = v
@@ -558,7 +656,9 @@ def judge(case, impl):
         src = expected_src(case)
         if src is None:
             if impl.startswith('ok'):
-                return 'text outside the documented language is accepted'
+                if cmd == 'parse' and any(t in ('nan', '7ff0000000000000', 'fff0000000000000') for t in impl.split()):
+                    return 'accepted polynomial has a non-finite coefficient or exponent'
+                return 'text outside the documented language (or beyond the range of f64) is accepted'
             return None if impl.startswith('err ') else 'malformed output'
         if not impl.startswith('ok'):
             return 'string of the documented language is rejected (%s)' % impl
